@@ -4,13 +4,15 @@
 import json, os, shutil, sys, re
 pid, name = sys.argv[1], sys.argv[2]
 needs = " ".join(sys.argv[3:])
-src = f"/tmp/wt_{pid}/SEED"
+pre = os.environ.get("WTPREFIX", "wt")
+src = f"/tmp/{pre}_{pid}/SEED"
 dst = f"/verif/seeded/{name}"
 os.makedirs(dst, exist_ok=True)
 for f in ("patch.diff", "seeded_demo.rs", "notes.md"):
     if os.path.exists(os.path.join(src, f)):
         shutil.copy(os.path.join(src, f), os.path.join(dst, f))
-log = open(f"/tmp/confirm_{pid}.log").read() if os.path.exists(f"/tmp/confirm_{pid}.log") else ""
+logf = f"/tmp/confirm_{pid}.log" if pre == "wt" else f"/tmp/confirm_{pre}_{pid}.log"
+log = open(logf).read() if os.path.exists(logf) else ""
 def section(title):
     m = re.search(r"== %s: %s\n(.*?)(?=\n== |\Z)" % (pid, title), log, re.S)
     return m.group(1).strip().splitlines() if m else []
@@ -30,7 +32,7 @@ meta = {
         ],
     },
     "caught_by": os.environ.get("CAUGHT", ""),
-    "base_commit": os.popen(f"git -C /tmp/wt_{pid} rev-parse --short HEAD").read().strip(),
+    "base_commit": os.popen(f"git -C /tmp/{pre}_{pid} rev-parse --short HEAD").read().strip(),
 }
 json.dump(meta, open(os.path.join(dst, "meta.json"), "w"), indent=1)
 print("kept", dst)
